@@ -227,6 +227,10 @@ func render(spec *runSpec, f string) string {
 	if spec.Collide {
 		for _, r := range spec.Req {
 			if r == f {
+				// many symbols per file widen the window in which two files are linked at the same time
+				for k := 0; k < 400; k++ {
+					fmt.Fprintf(&sb, "message Bulk%s%d { int32 y = 1; }\n", f, k)
+				}
 				sb.WriteString("message Dup { int32 y = 1; }\n")
 			}
 		}
